@@ -3,6 +3,7 @@ Lemmas about whole BGZF streams: what `render`/`closeOutput` emit, how the reade
 specification's multi-member parser take the stream apart again, and the EOF marker test.
 -/
 import Hts.Lemmas.BgzfSpec
+import Hts.Lemmas.BgzfWriter
 namespace Hts.Model.Member
 open Hts.Spec
 
@@ -265,5 +266,51 @@ theorem hasEOF_members (c : CodecFns) (h : Header) (ws : List (List Byte))
     apply hasEOF_isize
     · rw [Nat.mod_eq_of_lt hp.2]; omega
     · exact Nat.mod_lt _ (by decide)
+
+/-! ### whole scripts -/
+
+open BgzfWriter (after Op hasClose accepted) in
+/-- what the underlying writer has received when the script's Close returns, and Close's result -/
+def output (c : CodecFns) (h : Header) (wops : List (BgzfWriter.Op Byte)) : List Byte × Option WErr :=
+  closeOutput c h (BgzfWriter.after wops).emitted
+
+/-- the blocks of the script that reached the underlying writer -/
+def writtenBlocks (c : CodecFns) (h : Header) (wops : List (BgzfWriter.Op Byte)) : List (List Byte) :=
+  written c h (BgzfWriter.after wops).emitted
+
+theorem output_eq (c : CodecFns) (h : Header) (wops : List (BgzfWriter.Op Byte)) :
+    (output c h wops).1 = ((writtenBlocks c h wops).map (mb c h)).flatten ++
+      (if (output c h wops).2 = none then magicBlock else []) := by
+  simp only [output, closeOutput_eq, writtenBlocks, render_fst]
+
+theorem writtenBlocks_sub (c : CodecFns) (h : Header) (wops : List (BgzfWriter.Op Byte)) :
+    ∀ p ∈ writtenBlocks c h wops, p ∈ (BgzfWriter.after wops).emitted := by
+  obtain ⟨r, hr⟩ := written_prefix c h (BgzfWriter.after wops).emitted
+  intro p hp
+  rw [hr]; exact List.mem_append_left _ hp
+
+/-- with the default header and a codec within zlib's deflateBound a block of at most BlockSize bytes fits -/
+theorem default_fits (c : CodecFns) (hb : Bounded c) (p : List Byte) (hp : p.length ≤ BgzfWriter.BlockSize) :
+    Fits c {} p := by
+  refine ⟨⟨by decide, by simp, by simp⟩, ?_⟩
+  have := hb p
+  simp only [memberLen, zbytes, BgzfWriter.MaxBlockSize, BgzfWriter.BlockSize] at *
+  simp
+  omega
+
+theorem written_all (c : CodecFns) (h : Header) (bl : List (List Byte)) (hf : ∀ p ∈ bl, Fits c h p) :
+    written c h bl = bl := by
+  induction bl with
+  | nil => rfl
+  | cons p ps ih =>
+    simp only [written, writeBlock_of_fits c h p (hf p (by simp))]
+    rw [ih (fun q hq => hf q (by simp [hq]))]
+
+theorem default_output_ok (c : CodecFns) (hb : Bounded c) (wops : List (BgzfWriter.Op Byte))
+    (hclose : BgzfWriter.hasClose wops = true) : (output c {} wops).2 = none := by
+  have hall := written_all c {} (BgzfWriter.after wops).emitted
+    (fun p hp => default_fits c hb p (BgzfWriter.after_blocks_le wops hclose p hp))
+  have := (render_snd_none c {} (BgzfWriter.after wops).emitted).mpr hall
+  simpa only [output, closeOutput_eq] using this
 
 end Hts.Model.Member
